@@ -346,7 +346,7 @@ pub fn gaps(tr: &Traj, thorough: bool) -> Vec<f64> {
 }
 
 #[allow(clippy::too_many_arguments)]
-fn explore_traj(tr: &Traj, min_len: usize, depth: usize, thorough: bool, core_only: bool, carrier: u8, rep: &Report, total: &AtomicU64, steps_total: &AtomicU64, fixes_hist: &std::sync::Mutex<[u64; 8]>, pruned: &AtomicU64) {
+fn explore_traj(tr: &Traj, prefix: &[Step], min_len: usize, depth: usize, thorough: bool, core_only: bool, carrier: u8, rep: &Report, total: &AtomicU64, steps_total: &AtomicU64, fixes_hist: &std::sync::Mutex<[u64; 8]>, pruned: &AtomicU64) {
     // carrier 0: DF17; 1: DF18 (TIS-B / ADS-R); 2: DF17 and DF18 alternating under the same address
     let tp = templates_on(0x4840d6, if carrier == 1 { 18 } else { 17 });
     let alt = if carrier == 2 { Some(templates_on(0x4840d6, 18)) } else { None };
@@ -363,7 +363,9 @@ fn explore_traj(tr: &Traj, min_len: usize, depth: usize, thorough: bool, core_on
     let k = syms.len();
     // alias gaps only as far as depth-1 (they multiply the alphabet)
     let mut idx = vec![0usize; depth];
-    let mut steps: Vec<Step> = vec![syms[0]; depth];
+    let pl = prefix.len();
+    let mut steps: Vec<Step> = prefix.to_vec();
+    steps.extend(vec![syms[0]; depth]);
     let mut cnt = 0u64;
     let mut st = 0u64;
     let mut hist = [0u64; 8];
@@ -374,11 +376,11 @@ fn explore_traj(tr: &Traj, min_len: usize, depth: usize, thorough: bool, core_on
         }
         'outer: loop {
             for d in 0..len {
-                steps[d] = syms[idx[d]];
+                steps[pl + d] = syms[idx[d]];
             }
             // the first report defines time zero: its gap is irrelevant, use only the first two symbols (even / odd)
-            if idx[0] < 2 {
-                match check_mixed(tr, &tp, alt.as_ref(), &steps[..len], rep) {
+            if idx[0] < 2 || pl > 0 {
+                match check_mixed(tr, &tp, alt.as_ref(), &steps[..pl + len], rep) {
                     Some(f) => {
                         hist[f.min(7)] += 1;
                         cnt += 1;
@@ -397,7 +399,7 @@ fn explore_traj(tr: &Traj, min_len: usize, depth: usize, thorough: bool, core_on
                 }
                 d -= 1;
                 idx[d] += 1;
-                if idx[d] < if d == 0 { 2 } else { k } {
+                if idx[d] < if d == 0 && pl == 0 { 2 } else { k } {
                     break;
                 }
                 idx[d] = 0;
@@ -446,18 +448,29 @@ pub fn run(ctx: &Ctx, rep: &Report) {
     let pruned = AtomicU64::new(0);
     let hist = std::sync::Mutex::new([0u64; 8]);
     par_items(ctx.threads, cat.len(), |i| {
-        explore_traj(&cat[i], 1, depth, thorough, false, 0, rep, &total, &steps_total, &hist, &pruned);
+        explore_traj(&cat[i], &[], 1, depth, thorough, false, 0, rep, &total, &steps_total, &hist, &pruned);
     });
     // one step deeper on the core gaps (without the alias gaps)
     par_items(ctx.threads, cat.len(), |i| {
-        explore_traj(&cat[i], depth + 1, depth + 1, thorough, true, 0, rep, &total, &steps_total, &hist, &pruned);
+        explore_traj(&cat[i], &[], depth + 1, depth + 1, thorough, true, 0, rep, &total, &steps_total, &hist, &pruned);
     });
     // the same position messages carried by DF18, and DF17 / DF18 alternating for one address (core gaps)
     let every = if thorough { 2 } else { 3 };
     let subcat: Vec<&Traj> = cat.iter().step_by(every).collect();
     par_items(ctx.threads, subcat.len() * 2, |i| {
-        explore_traj(subcat[i / 2], 1, depth, thorough, true, 1 + (i % 2) as u8, rep, &total, &steps_total, &hist, &pruned);
+        explore_traj(subcat[i / 2], &[], 1, depth, thorough, true, 1 + (i % 2) as u8, rep, &total, &steps_total, &hist, &pruned);
     });
+    // non-initial states: the exploration is restarted after three five-report prefixes that set the per-aircraft
+    // state up (an established track of alternating reports; a fix followed by duplicates; five reports from one spot)
+    {
+        let e = |dt: f64| Step { dt, odd: false };
+        let o = |dt: f64| Step { dt, odd: true };
+        let prefixes: Vec<Vec<Step>> = vec![vec![e(0.0), o(0.4), e(0.4), o(0.4), e(0.4)], vec![e(0.0), o(0.5), o(0.0), o(0.0), o(0.0)], vec![e(0.0), o(0.0), e(0.0), o(0.0), e(0.0)]];
+        let sd = if thorough { 3 } else { 2 };
+        par_items(ctx.threads, cat.len() * prefixes.len(), |i| {
+            explore_traj(&cat[i / prefixes.len()], &prefixes[i % prefixes.len()], 1, sd, thorough, thorough, 0, rep, &total, &steps_total, &hist, &pruned);
+        });
+    }
     // long flights: every pattern of one to three (gap, parity) steps over five gaps, repeated 12 and 60 times
     // (state that accumulates over many reports: counters, filters, caches)
     {
@@ -553,8 +566,14 @@ pub fn run(ctx: &Ctx, rep: &Report) {
             let (Some(ra), Some(rb)) = (build(ta, &tpa, sa), build(tb, &tpb, sb)) else { continue };
             let solo_a = run_decoder(&ra.iter().collect::<Vec<_>>(), reference);
             let solo_b = run_decoder(&rb.iter().collect::<Vec<_>>(), reference);
+            // bystanders: 0, 2 or 7 other aircraft heard (and fixed) before, only in the interleaved run
+            let crowd_n = [0usize, 2, 7][(si + pi) % 3];
+            let crowd: Vec<Report1> = (0..crowd_n)
+                .flat_map(|c| build(tb, &templates(0x500000 + c as u32), &[Step { dt: 0.0, odd: false }, Step { dt: 0.4, odd: true }]).unwrap_or_default())
+                .collect();
             for m in &merges {
-                let mut order: Vec<&Report1> = Vec::with_capacity(6);
+                let mut order: Vec<&Report1> = Vec::with_capacity(6 + crowd.len());
+                order.extend(crowd.iter());
                 let (mut i, mut j) = (0, 0);
                 for s in m {
                     if *s {
@@ -568,13 +587,14 @@ pub fn run(ctx: &Ctx, rep: &Report) {
                 let both = run_decoder(&order, reference);
                 n += 1;
                 if let (Ok(both), Ok(sa_), Ok(sb_)) = (&both, &solo_a, &solo_b) {
+                    let both = &both[crowd.len()..];
                     let xa: Vec<_> = m.iter().zip(both.iter()).filter(|(s, _)| **s).map(|(_, p)| *p).collect();
                     let xb: Vec<_> = m.iter().zip(both.iter()).filter(|(s, _)| !**s).map(|(_, p)| *p).collect();
                     if &xa != sa_ || &xb != sb_ {
                         rep.violation(
                             "interference",
                             format!("what is decoded for one aircraft changes when another aircraft's reports are interleaved ({} / {})", ta.name, tb.name),
-                            json!({"two": [traj_json(ta), traj_json(tb)], "steps": [steps_json(sa), steps_json(sb)], "merge": m.iter().map(|b| *b as u8).collect::<Vec<_>>()}),
+                            json!({"two": [traj_json(ta), traj_json(tb)], "steps": [steps_json(sa), steps_json(sb)], "merge": m.iter().map(|b| *b as u8).collect::<Vec<_>>(), "bystanders": crowd_n}),
                         );
                     }
                 } else {
